@@ -9,7 +9,7 @@ TOLERANCE = 'currents/impedances 5e-4 (cond<=1e3; 5e-7*cond to 1e5); gain offset
 RULE = ('Every structure with <= D wires on the ground lattice (two points on the plane; vertical extra structures '
         'added) inside the stated domain x EVERY pulse position as single feed (k>=3 junction pulses excluded) x '
         'two 2-source sets with complex voltages; plus a grounded wire at 11 lean angles 0..20 deg (x 2 azimuths x radii x '
-        'either end grounded, alone / with a top wire): the ground model is solved and compared with the free-space model '
+        'either end grounded, alone / with a top wire) and a grounded stub of 1..3 segments with a wire on top in 4 listings: the ground model is solved and compared with the free-space model '
         'of wires + mirror images built by the harness (image wires written reversed, grounded wires continued into '
         'their image, ground-end feed = 2V on the junction pulse). State = (structure, feed set); transition = one '
         'ground solve + one free-space solve. Non-trivial: at least one non-vertical wire or a grounded end.')
@@ -27,6 +27,7 @@ def cases(tier, seed):
     yield from _cases(tier, seed, False)
     yield from _cases(tier, seed, True)
     yield from _lean(tier, seed)
+    yield from _stub(tier, seed)
 
 
 LEAN = (0., 0.02, 0.1, 0.3, 0.5, 0.7, 0.9, 1.5, 3., 8., 20.)
@@ -48,6 +49,26 @@ def _lean(tier, seed):
             for r in (3e-5, 4e-4) if tier == 'quick' else (3e-5, 2e-4, 4e-4, 1e-3):
                 for es in ([(0, 1)], [(1, 0)], [(0, 1), (1, 2)], [(2, 1), (1, 0)]):
                     yield dict(f=f, lam=lam, pts=pts, name='lean%g/%g' % (lean, az), st=[dict(a=x, b=y, n=(6, 3)[i], r=r * lam) for i, (x, y) in enumerate(es)])
+
+
+def _stub(tier, seed):
+    """a short grounded stub of 1..3 segments (its only segment is then carried by the junction pulse, owned by the
+    later wire) with a wire on top, listed before / after the stub, vertical and sloping"""
+    rot, sc, f = geom.variant(seed)
+    lam = geom.C_MININEC / f
+    for lean in (0., 8.):
+        a = np.radians(lean)
+        base = np.array([-0.02, 0.03, 0.]) * lam
+        for h in (0.06, 0.075):
+            top = base + h * lam * np.array([np.sin(a), 0., np.cos(a)])
+            # top wire: 4 segments of 0.04 lambda (ratio to the stub segment <= 2, lowest point >= 1.05 segments up)
+            for u in (np.array([0.8, 0.3, 0.2]), np.array([0., 0., 1.]) if lean == 0 else np.array([0.1, 0.7, 0.4])):
+                tip = top + 0.16 * lam * u / np.linalg.norm(u)
+                pts = [list(base), list(top), list(tip)]
+                for ns in (1, 2, 3):
+                    for es in ([(0, 1), (1, 2)], [(1, 2), (0, 1)], [(1, 0), (2, 1)], [(2, 1), (1, 0)]):
+                        yield dict(f=f, lam=lam, pts=pts, name='stub%g/%g/%d/%g' % (lean, h, ns, u[0]),
+                                   st=[dict(a=x, b=y, n=(ns if 0 in (x, y) else 4), r=2e-4 * lam) for x, y in es])
 
 
 def _cases(tier, seed, special):
